@@ -355,6 +355,24 @@ def c_fdim(a, b, w, mode="RN"):
     return d
 
 
+def c_fmod(a, b, w):
+    """C fmod: x - n*y with n = trunc(x/y), exact; the result has the sign of x (also a zero result);
+    NaN for NaN operands, infinite x or zero y; x itself for finite x and infinite y"""
+    x, y = decode(a, w), decode(b, w)
+    if x[0] == "nan" or y[0] == "nan" or x[0] == "inf" or y[0] == "zero":
+        return qnan(w)
+    if y[0] == "inf" or x[0] == "zero":
+        return a
+    qx, qy = x[1], abs(y[1])
+    neg = qx < 0
+    ax = -qx if neg else qx
+    n = (ax / qy).numerator // (ax / qy).denominator
+    r = ax - n * qy
+    if r == 0:
+        return zero(1 if neg else 0, w)
+    return encode(-r if neg else r, w, "RZ")
+
+
 def c_frac(a, w, mode="RN"):
     x = decode(a, w)
     if x[0] == "nan":
